@@ -80,6 +80,21 @@ func runC17(c *mon.Ctx) {
 		return
 	}
 	defer os.RemoveAll(base)
+	// a tree over the total size limit (one sparse file): the directory check and the list check must both
+	// say so, and both ways of creating must fail
+	for k, sz := range []int64{refzip.MaxZipFile + 1, refzip.MaxZipFile - 2} {
+		id := fmt.Sprintf("tree-at-total-limit%d", k)
+		if !c.Mine(2+k) || !c.Want(id) {
+			continue
+		}
+		files := []*gen.ZFile{{P: "go.mod", M: 0o644, Sz: 21, Data: []byte("module example.com/m\n")}, {P: "a.go", M: 0o644, Sz: 1, Data: []byte("x")},
+			{P: "big/blob.bin", M: 0o644, Sz: sz, Zeros: sz}}
+		if k == 0 {
+			c17Tree(c, id, files, "total-size-over-limit", base, 1)
+		} else {
+			c.Class("tree:total-size-just-below-limit-skipped") // creating would read half a gigabyte
+		}
+	}
 	topts := gen.ZOpts{MaxFiles: c.Scale(10, 24), MaxData: c.Scale(32, 128), Plain: true}
 	nt := c.Share(c.Scale(6_000, 100_000))
 	for i := 0; i < nt; i++ {
@@ -388,7 +403,11 @@ func c17Tree(c *mon.Ctx, id string, files []*gen.ZFile, theme string, base strin
 		if err != nil {
 			continue
 		}
-		fh.Write(f.Data)
+		if f.Zeros > 0 {
+			fh.Truncate(f.Zeros) // a sparse file: its size is all that the checks look at
+		} else {
+			fh.Write(f.Data)
+		}
 		fh.Close()
 		byPath[p] = f
 	}
@@ -410,6 +429,9 @@ func c17Tree(c *mon.Ctx, id string, files []*gen.ZFile, theme string, base strin
 	for i, p := range paths {
 		list[i] = c17OSFile{dir, p}
 		rf[i] = refzip.File{Path: p, Kind: refzip.Regular, Size: int64(len(byPath[p].Data)), GoVersion: byPath[p].GoVersion}
+		if byPath[p].Zeros > 0 {
+			rf[i].Size = byPath[p].Zeros
+		}
 	}
 	wit := func() any { return map[string]any{"theme": theme, "tree": zipcQ(paths), "files": zipcDescribe(files)} }
 	if b, err := json.Marshal(wit()); err == nil {
